@@ -79,27 +79,58 @@ void harness(void) {
     SYM_U32(sp);
     ASSUME(n >= 1 && n <= NMAX && sp <= n);
     for (uint32_t i = 0; i < NMAX; ++i) {
+#ifdef TINY_GRID
+        static const int8_t tiny[8] = {-2, -1, 0, 1, 3, 7, -5, 2};
+        uint8_t ti;
+        SYM_SET(uint8_t, ti, "x_tiny_idx");
+        ASSUME(ti < 8);
+        int8_t v = tiny[ti];
+#else
         int8_t v;
         SYM_SET(int8_t, v, "x_i8");
+#endif
         x[i] = (double) v;
         xf[i] = (float) v;
     }
-    struct jls_statistics_s whole, inc, fresh, al_a, al_b, f32;
-    routes(n, sp, &whole, &inc, &fresh, &al_a, &al_b, &f32);
-    const struct jls_statistics_s * r[6] = {&whole, &inc, &fresh, &al_a, &al_b, &f32};
-    const double tol_mean = 1e-9;    /* values <= 128, N <= 5: rounding differences are ~1e-14 */
-    const double tol_s = 1e-6;       /* s <= 5 * 255^2 */
-    for (int i = 0; i < 6; ++i) {
-        CHECK(r[i]->k == n, "count equal on every route");
-        CHECK(r[i]->s >= 0.0, "scaled variance s is never negative");
-        CHECK(jls_statistics_var((struct jls_statistics_s *) r[i]) >= 0.0, "variance is never negative");
-        CHECK(r[i]->min <= r[i]->mean + tol_mean && r[i]->mean <= r[i]->max + tol_mean, "min <= mean <= max (up to rounding)");
-        CHECK(r[i]->min == whole.min && r[i]->max == whole.max, "min/max exact on every route");
-        CHECK(fabs(r[i]->mean - whole.mean) <= tol_mean, "mean agrees across routes up to floating-point rounding");
-        CHECK(fabs(r[i]->s - whole.s) <= tol_s, "scaled variance agrees across routes up to floating-point rounding");
+    const double tol_mean = 1e-9;    /* values <= 128, N <= 6: rounding differences are ~1e-14 */
+    const double tol_s = 1e-6;       /* s <= 6 * 255^2 */
+    struct jls_statistics_s whole, other, a, b;
+    jls_statistics_compute_f64(&whole, x, n);
+#if defined(G_ADD)
+    jls_statistics_reset(&other);
+    for (uint32_t i = 0; i < NMAX; ++i) {
+        if (i < n) {
+            jls_statistics_add(&other, x[i]);
+        }
     }
-    CHECK(same_bits(&fresh, &al_a), "combine: result may overwrite operand a (bit-identical to a fresh target)");
-    CHECK(same_bits(&fresh, &al_b), "combine: result may overwrite operand b (bit-identical to a fresh target)");
+#elif defined(G_COMBINE)
+    jls_statistics_compute_f64(&a, x, sp);
+    jls_statistics_compute_f64(&b, x + sp, n - sp);
+    jls_statistics_combine(&other, &a, &b);
+#elif defined(G_F32)
+    jls_statistics_compute_f32(&other, xf, n);
+#elif defined(G_ALIAS)
+    struct jls_statistics_s al_a, al_b;
+    jls_statistics_compute_f64(&a, x, sp);
+    jls_statistics_compute_f64(&b, x + sp, n - sp);
+    jls_statistics_combine(&other, &a, &b);
+    al_a = a;
+    jls_statistics_combine(&al_a, &al_a, &b);
+    al_b = b;
+    jls_statistics_combine(&al_b, &a, &al_b);
+    CHECK(same_bits(&other, &al_a), "combine: result may overwrite operand a (bit-identical to a fresh target)");
+    CHECK(same_bits(&other, &al_b), "combine: result may overwrite operand b (bit-identical to a fresh target)");
+#else
+#error "no G_ route"
+#endif
+    CHECK(whole.k == n && other.k == n, "count equal on both routes");
+    CHECK(whole.s >= 0.0 && other.s >= 0.0, "scaled variance s is never negative");
+    CHECK(jls_statistics_var(&whole) >= 0.0 && jls_statistics_var(&other) >= 0.0, "variance is never negative");
+    CHECK(whole.min <= whole.mean + tol_mean && whole.mean <= whole.max + tol_mean, "min <= mean <= max (compute)");
+    CHECK(other.min <= other.mean + tol_mean && other.mean <= other.max + tol_mean, "min <= mean <= max (other route)");
+    CHECK(other.min == whole.min && other.max == whole.max, "min/max exact on both routes");
+    CHECK(fabs(other.mean - whole.mean) <= tol_mean, "mean agrees across routes up to floating-point rounding");
+    CHECK(fabs(other.s - whole.s) <= tol_s, "scaled variance agrees across routes up to floating-point rounding");
 #elif defined(MODE_EMPTY)
     struct jls_statistics_s a, e, t1, t2;
     SYM_U64(k);
